@@ -11,7 +11,7 @@
 (* M follows the code: DetectStyle, TakeBlock, Tokenize, Validate (one step per option),  *)
 (* Assemble (first line / arguments / leading blank / content check).                     *)
 (* S is the declarative partition/offset/option statement; both are in this module.       *)
-EXTENDS Naturals, Sequences, FiniteSets, TLC, Json
+EXTENDS Naturals, Sequences, FiniteSets, SequencesExt, TLC, Json
 
 CONSTANTS MaxLines,        \* content length bound
           LineVocab,       \* set of abstract lines
@@ -114,9 +114,7 @@ Tokenize == /\ pc = "tokenize"
                ELSE /\ pairs' = PairsOf(block) /\ tokerr' = FALSE /\ pc' = "validate"
                     /\ todo' = LET m == Merge(DictOf(addl), DictOf(PairsOf(block))) IN
                                \* iteration order is irrelevant for the result; fix one
-                               LET ks == DOMAIN m IN
-                               [n \in 1..Cardinality(ks) |->
-                                  LET k == CHOOSE k \in ks : Cardinality({j \in ks : j <= k}) = n IN <<k, m[k]>>]
+                               LET ks == SetToSeq(DOMAIN m) IN [n \in 1..Len(ks) |-> <<ks[n], m[ks[n]]>>]
                     /\ UNCHANGED nwarn
             /\ UNCHANGED <<lines, decl, first, addl, style, p, block, opts, unknown, res>>
 
